@@ -72,17 +72,17 @@ theorem pt_apply_on_foreign_goes_to_error (lrv : Nat) (r : Rendered) (rs : List 
 uncontrolled secret that is not of the connection type) is never written by
 PublishConnection; the conflict surfaces as an error. -/
 theorem xr_secret_foreign_untouched (filter : List String) (details : Xp.C09.Data) (s : Xp.C09.Secret)
-    (h : s.ctrl = .other ∨ s.ctrl = .xr ∨ (s.ctrl = .none ∧ s.conn = false)) :
+    (h : s.ctrl = .other ∨ s.ctrl = .xr ∨ ((s.ctrl = .none ∨ s.ctrl = .xrPlain) ∧ s.conn = false)) :
     Xp.C09.publish true filter details (some s) = ⟨some s, false, true, 0⟩ := by
   apply Xp.C09.publish_guard
-  rcases h with h | h | ⟨h, h'⟩ <;> simp [Xp.C09.controllable, *]
+  rcases h with h | h | ⟨h | h, h'⟩ <;> simp [Xp.C09.controllable, *]
 
 /-- **Claim connection secret.** Same guard for PropagateConnection. -/
 theorem claim_secret_foreign_untouched (fs d : Xp.C09.Secret) (hx : fs.ctrl = .xr)
-    (h : d.ctrl = .other ∨ d.ctrl = .xr ∨ (d.ctrl = .none ∧ d.conn = false)) :
+    (h : d.ctrl = .other ∨ d.ctrl = .xr ∨ ((d.ctrl = .none ∨ d.ctrl = .xrPlain) ∧ d.conn = false)) :
     Xp.C09.propagate true true (some fs) (some d) = ⟨some d, false, true, 0⟩ := by
   apply Xp.C09.propagate_guard fs d hx
-  rcases h with h | h | ⟨h, h'⟩ <;> simp [Xp.C09.controllable, *]
+  rcases h with h | h | ⟨h | h, h'⟩ <;> simp [Xp.C09.controllable, *]
 
 /-- Objects without a controller reference may be adopted (non-vacuity of the guard). -/
 example : (Xp.C09.publish true [] [("k", "v")] (some ⟨true, .none, []⟩)).slot = some ⟨true, .owner, [("k", "v")]⟩ := by decide
